@@ -198,6 +198,17 @@ def C09(tier, seed, st):
             v = b + d
             if -2 ** 63 <= v <= 2 ** 63 - 1:
                 counts.append(v)
+    # wrap families: counts that differ from an accepted one by a multiple of a power of two (or three times one) -
+    # where a derived quantity computed in int (bits = n/3*32, bytes = n*4/3, n*11, a conversion to a narrower
+    # integer type) wraps around onto the value an accepted count would give
+    for e in range(8, 64):
+        for mult in (1, 3):
+            for j in (1, -1, 2, -3):
+                for d in (0, 1, 11, 12, 13, 15, 18, 21, 24, 25):
+                    v = mult * j * 2 ** e + d
+                    if -2 ** 63 <= v <= 2 ** 63 - 1:
+                        counts.append(v)
+    counts = list(dict.fromkeys(counts))
     plenty = gens.script_str([(rng.randbytes(40), None)])
     for c in counts:
         lang = rng.choice(LANGS + UNSUPPORTED[:3])
